@@ -454,3 +454,10 @@ package tree
 //@   ensures [own] OWN()
 //@   ensures [orientation_at_most_one_parent] ORI()
 //@   ensures [orientation_root_has_no_parent] ROOTOK(n.t)
+
+//@ func (*tree.Node).IsConnected
+//@   requires n != nil
+//@   assigns nothing
+//@   ensures [true_iff_listed_as_neighbour] result <==> (exists k int :: {n.neigh[k]} 0 <= k && k < deg(n) && n.neigh[k] == next)
+//@   loop 1
+//@     invariant [scanned_prefix_has_no_match] 0 <= i && (forall k int :: {n.neigh[k]} 0 <= k && k < i ==> n.neigh[k] != next)
